@@ -72,6 +72,17 @@ func PackedLayout(t types.Type) []FieldLayout {
 				}
 				continue
 			}
+			// an array of structs: element after element, each flattened ("Name[i].Inner")
+			if arr, isArr := f.Type().Underlying().(*types.Array); isArr {
+				if inner, isStruct := arr.Elem().Underlying().(*types.Struct); isStruct {
+					for k := int64(0); k < arr.Len(); k++ {
+						if !walk(inner, prefix+f.Name()+"["+itoa64(k)+"].") {
+							return false
+						}
+					}
+					continue
+				}
+			}
 			s := PackedSize(f.Type())
 			if s < 0 {
 				return false
@@ -118,6 +129,36 @@ func (f *Fn) ByteTemplate(lit *ast.CompositeLit) ([]int, []FieldLayout) {
 				continue
 			}
 			if tv, has := f.Info().Types[kv.Value]; has && tv.Type != nil {
+				if arr, isArr := tv.Type.Underlying().(*types.Array); isArr {
+					if _, isStruct := arr.Elem().Underlying().(*types.Struct); isStruct {
+						inner, isLit := ast.Unparen(kv.Value).(*ast.CompositeLit)
+						if !isLit {
+							unknown[prefix+id.Name+"["] = true
+							continue
+						}
+						next := int64(0)
+						for _, el := range inner.Elts {
+							idx := next
+							val := el
+							if ekv, isKV := el.(*ast.KeyValueExpr); isKV {
+								val = ekv.Value
+								c := f.ConstVal(ekv.Key)
+								if c == nil || c.Kind() != constant.Int {
+									unknown[prefix+id.Name+"["] = true
+									continue
+								}
+								idx, _ = constant.Int64Val(c)
+							}
+							next = idx + 1
+							if ecl, isCL := ast.Unparen(val).(*ast.CompositeLit); isCL {
+								collect(ecl, prefix+id.Name+"["+itoa64(idx)+"].")
+							} else {
+								unknown[prefix+id.Name+"["+itoa64(idx)+"]."] = true
+							}
+						}
+						continue
+					}
+				}
 				if _, isStruct := tv.Type.Underlying().(*types.Struct); isStruct {
 					if inner, isLit := ast.Unparen(kv.Value).(*ast.CompositeLit); isLit {
 						collect(inner, prefix+id.Name+".")
@@ -165,4 +206,23 @@ func (f *Fn) ByteTemplate(lit *ast.CompositeLit) ([]int, []FieldLayout) {
 		}
 	}
 	return buf, lay
+}
+
+func itoa64(v int64) string {
+	if v == 0 {
+		return "0"
+	}
+	neg := v < 0
+	if neg {
+		v = -v
+	}
+	var b []byte
+	for v > 0 {
+		b = append([]byte{byte('0' + v%10)}, b...)
+		v /= 10
+	}
+	if neg {
+		b = append([]byte{'-'}, b...)
+	}
+	return string(b)
 }
